@@ -123,6 +123,9 @@ def elem_source(v, depth=0):
             if isinstance(clo, dict) and clo.get('k') == 'closure' and isinstance(clo.get('body'), dict) and clo['body'].get('k') != 'big':
                 return {'k': 'elem', 'of': clo['body']}
             return None
+        if kk == 'call' and src.get('f') == 'enumerate' and src.get('recv') is not None:
+            a = {'k': 'elem', 'of': src['recv']}
+            return {'k': 'tuple', 'items': [{'k': 'index'}, elem_source(a, depth + 1) or a]}
         if kk == 'call' and src.get('f') == 'zip' and src.get('args'):
             a = {'k': 'elem', 'of': src['recv']}
             b = {'k': 'elem', 'of': src['args'][0]}
